@@ -91,6 +91,6 @@ theorem cycle_untrimmed (s : List Row) (h : Dense s) (hu : ∀ row ∈ s, trimRo
     simp only [List.getElem_map, Nat.zero_add]
     exact checkRowOne_dense i _ (by have := h.1; omega) (h.2 i h1).2)
   rw [zipWith_cells_self] at hcr
-  simp only [cycle, densify, ht, checkSheet_seq s hseq, Res.bind, checkRow, hcr]
+  simp only [cycle, densify, ht, checkSheet_seq s hseq h.1, Res.bind, checkRow, hcr]
 
 end XlModel.Grid
